@@ -10,3 +10,6 @@ LP/Cert.vos LP/Cert.vok LP/Cert.required_vos: LP/Cert.v LP/ILP.vos
 LP/CertSound.vo LP/CertSound.glob LP/CertSound.v.beautified LP/CertSound.required_vo: LP/CertSound.v LP/Cert.vo
 LP/CertSound.vio: LP/CertSound.v LP/Cert.vio
 LP/CertSound.vos LP/CertSound.vok LP/CertSound.required_vos: LP/CertSound.v LP/Cert.vos
+LP/User.vo LP/User.glob LP/User.v.beautified LP/User.required_vo: LP/User.v LP/ILP.vo
+LP/User.vio: LP/User.v LP/ILP.vio
+LP/User.vos LP/User.vok LP/User.required_vos: LP/User.v LP/ILP.vos
